@@ -111,8 +111,9 @@ def _cmp_argument(a, b):
     """Cmp argument."""
     # It's ok to compare relative number and part for Arguments,
     # since their ordering is a property of the form
-    x = (a._number, a._part)
-    y = (b._number, b._part)
+    # No part (None) sorts before part 0, None and int do not compare
+    x = (a._number, -1 if a._part is None else a._part)
+    y = (b._number, -1 if b._part is None else b._part)
     if x < y:
         return -1
     elif x > y:
